@@ -147,7 +147,14 @@ def r1_r2(ctx):
     # level 0: inside establish_from_challenge
     e0, tests0 = id_binding_edges(b, prov, g, rec, is_param("remote_id"))
     r = b.reachable(0, removed_edges=e0)
-    guarded = vbi not in r and bool(tests0)
+    # path-sensitive: only paths on which the attached record is the one selected for the key need the binding test
+    sel = selection_blocks(b, prov, key_operand_local(b, vt), rec)
+    if sel:
+        unguarded_sel = [sb for sb in sel if sb in r and vbi in b.reachable(sb, removed_edges=e0)]
+        guarded = not unguarded_sel and bool(tests0)
+    else:
+        unguarded_sel = []
+        guarded = vbi not in r and bool(tests0)
     where = "establish_from_challenge (lines %s)" % tests0
     chain = []
     if not guarded:
@@ -202,7 +209,15 @@ def r1_r2(ctx):
     if guarded:
         r2.ok("attached record bound to the claimed id in %s" % where, "key: %s" % fmt_short(key_e))
     else:
-        p = path_to(b, [vbi], removed_edges=e0)
+        p = None
+        for sb in unguarded_sel:
+            p1_ = path_to(b, [sb], removed_edges=e0)
+            p2_ = path_to(b, [vbi], removed_edges=e0, start=sb)
+            if p1_ and p2_:
+                p = p1_ + p2_[1:]
+                break
+        if p is None:
+            p = path_to(b, [vbi], removed_edges=e0)
         labs = []
         for i in range(len(p or []) - 1):
             t = b.blocks[p[i]].term
@@ -214,6 +229,65 @@ def r1_r2(ctx):
                 "record and sign with its own key" % labs[:6],
                 loc=b.loc(vt.line), site="key binding of the handshake record", path=describe_path(b, p or []))
     return r1, r2
+
+
+def key_operand_local(b, vt):
+    """the local behind the verification-key argument: the receiver of the Enr::public_key call feeding verify"""
+    if vt.args[0].place is None:
+        return None
+    cur = vt.args[0].place.local
+    for _ in range(8):
+        nxt = None
+        for blk in b.blocks:
+            if blk.cleanup:
+                continue
+            for s in blk.stmts:
+                if s.k == "a" and s.lhs.is_local() and s.lhs.local == cur:
+                    if s.rv.k == "ref" and s.rv.place is not None:
+                        nxt = s.rv.place.local
+                    elif s.rv.k in ("use", "cast") and s.rv.ops and s.rv.ops[0].place is not None:
+                        nxt = s.rv.ops[0].place.local
+            t = blk.term
+            if t.k == "call" and t.dest.is_local() and t.dest.local == cur and t.args and t.args[0].place is not None:
+                if short(t.callee() or "").endswith("Enr::public_key"):
+                    return t.args[0].place.local
+                nxt = t.args[0].place.local
+        if nxt is None:
+            return None
+        cur = nxt
+    return None
+
+
+def selection_blocks(b, prov, local, pred, depth=0, seen=None):
+    """blocks in which `local` (or a local it is copied from) is assigned a value deriving from pred"""
+    if local is None or depth > 6:
+        return []
+    seen = seen if seen is not None else set()
+    if local in seen:
+        return []
+    seen.add(local)
+    out = []
+    for lhs, kind, payload, blk, _line in prov.defs.get(local, ()):
+        if not lhs.is_local() or blk not in b.live_blocks():
+            continue
+        if kind == "rv":
+            src = payload.ops[0].place if payload.k in ("use", "cast") and payload.ops else (payload.place if payload.k == "ref" else None)
+            if src is not None and not all(x == "*" for x in src.proj):
+                src = None
+            if src is not None and len(prov.defs.get(src.local, ())) > 1:
+                out += selection_blocks(b, prov, src.local, pred, depth + 1, seen)
+                continue
+            e = prov.rvalue(payload, blk)
+            if derives(e, pred):
+                if src is not None and len(prov.defs.get(src.local, ())) == 1 and not b.local_name(src.local):
+                    sub = selection_blocks(b, prov, src.local, pred, depth + 1, seen)
+                    out += sub or [blk]
+                else:
+                    out.append(blk)
+        elif kind == "call":
+            if derives(prov.call(payload, blk), pred):
+                out.append(blk)
+    return sorted(set(out))
 
 
 def b_idx(b, name):
